@@ -7,9 +7,10 @@ func mainUnit(files []string, hs ...Harness) Unit {
 func init() {
 	register(Check{
 		ID: "C18", Title: "evy fmt never damages a source file and --check tells the truth", Level: "model_checking",
-		Units: []Unit{mainUnit([]string{"main/c18.go", "main/c18native.go"},
+		Units: []Unit{mainUnit([]string{"main/c18.go", "main/c18native.go", "main/c07m.go"},
 			Harness{Fn: "ZZC18Write", Quick: p("K", 8), Thorough: p("K", 10), Expect: []string{"clean-run", "unparsable", "fault", "killed", "witness:end"}},
 			Harness{Fn: "ZZC18Check", Expect: []string{"witness:end"}},
+			Harness{Fn: "ZZC07CheckFiles", Quick: p("FILES", 2), Thorough: p("FILES", 3), Expect: []string{"files-ok", "files-unformatted", "witness:end"}},
 		)},
 		Assumptions: []string{
 			"model file system: a map path -> (bytes, mode); os.ReadFile/CreateTemp/Create/OpenFile/WriteFile/Stat/Chmod/Rename/Remove and (*os.File).Write/Close/Chmod/Sync/Stat are stubs bound to it; rename is atomic; a failing write leaves half of the data behind",
